@@ -1,0 +1,121 @@
+//go:build verif
+
+package rueidis
+
+import (
+	"context"
+	"strconv"
+)
+
+// Verification hooks for the pipeline queues (ring.go, flowbuffer.go): constructors and
+// method wrappers for the unexported types plus unsynchronised state snapshots that are
+// only meaningful while no queue method is running.
+
+type VerifQueue struct {
+	q queue
+	r *ring
+	f *flowBuffer
+}
+
+type VerifSlot struct {
+	Mark  uint32
+	Slept bool
+	One   Completed
+	Multi []Completed
+}
+
+func VerifNewRing(factor int) *VerifQueue {
+	r := newRing(factor)
+	return &VerifQueue{q: r, r: r}
+}
+
+func VerifNewFlowBuffer(factor int) *VerifQueue {
+	f := newFlowBuffer(factor)
+	return &VerifQueue{q: f, f: f}
+}
+
+func (v *VerifQueue) PutOne(m Completed) chan RedisResult {
+	ch, _ := v.q.PutOne(context.Background(), m)
+	return ch
+}
+
+func (v *VerifQueue) PutMulti(m []Completed, resps []RedisResult) chan RedisResult {
+	ch, _ := v.q.PutMulti(context.Background(), m, resps)
+	return ch
+}
+
+func (v *VerifQueue) NextWriteCmd() (Completed, []Completed, chan RedisResult) {
+	return v.q.NextWriteCmd()
+}
+
+func (v *VerifQueue) WaitForWrite() (Completed, []Completed, chan RedisResult) {
+	return v.q.WaitForWrite()
+}
+
+func (v *VerifQueue) NextResultCh() (Completed, []Completed, chan RedisResult, []RedisResult) {
+	return v.q.NextResultCh()
+}
+
+func (v *VerifQueue) FinishResult() { v.q.FinishResult() }
+
+// RingSnapshot reads the ring without synchronisation (quiescent use only).
+func (v *VerifQueue) RingSnapshot() (write, read1, read2 uint32, held int, slots []VerifSlot) {
+	r := v.r
+	write, read1, read2, held = r.write, r.read1, r.read2, -1
+	slots = make([]VerifSlot, len(r.store))
+	for i := range r.store {
+		n := &r.store[i]
+		slots[i] = VerifSlot{Mark: n.mark, Slept: n.slept, One: n.one, Multi: n.multi}
+		if r.resc != nil && r.resc == n.c1 {
+			held = i
+		}
+	}
+	return
+}
+
+// RingSetCounters moves an empty, quiescent ring to the state it has after `base`
+// commands went through it (all three counters equal), e.g. close to the uint32 wrap.
+func (v *VerifQueue) RingSetCounters(base uint32) {
+	v.r.write, v.r.read1, v.r.read2 = base, base, base
+}
+
+// Chans lists the reply channels: per slot for the ring, per token (in b.f order) for a
+// fresh flow buffer.
+func (v *VerifQueue) Chans() []chan RedisResult {
+	if v.r != nil {
+		out := make([]chan RedisResult, len(v.r.store))
+		for i := range v.r.store {
+			out[i] = v.r.store[i].ch
+		}
+		return out
+	}
+	n := len(v.f.f)
+	out := make([]chan RedisResult, 0, n)
+	for i := 0; i < n; i++ {
+		t := <-v.f.f
+		out = append(out, t.ch)
+		v.f.f <- t
+	}
+	return out
+}
+
+// FlowLens reports the channel fill levels of the flow buffer (quiescent use only).
+func (v *VerifQueue) FlowLens() (f, w, r, size int, cur bool) {
+	return len(v.f.f), len(v.f.w), len(v.f.r), cap(v.f.f), v.f.c != nil
+}
+
+func VerifTagResult(tag int) RedisResult {
+	return NewResult(strmsg('+', strconv.Itoa(tag)), nil)
+}
+
+func VerifResultTag(r RedisResult) int {
+	s, err := r.ToString()
+	if err != nil {
+		return -1
+	}
+	n, err := strconv.Atoi(s)
+	if err != nil {
+		return -1
+	}
+	return n
+}
